@@ -104,6 +104,17 @@ fn legacy_0_4_18(v20: &Value, ops: bool, variant: u64, dep1: &str, dep2: &str) -
     Value::Object(o)
 }
 
+/// Rewrites the stored configuration into the 0.4.20 layout (fees go to the treasury iff one is configured, so that the
+/// 0.4.20 -> 1.0.0 path maps it back onto itself) and sets the stored version to 0.4.20.
+pub fn to_0_4_20(w: &mut World) {
+    let cur = raw_cfg(w);
+    let has_treasury = cur["protocol_fee_config"]["treasury_address"].is_string();
+    let fb = w.names.ad("treasury");
+    let v20 = legacy_0_4_20(&cur, has_treasury, &fb);
+    w.store.m.insert(b"config".to_vec(), v20.to_string().into_bytes());
+    set_version(w, "staking", "0.4.20");
+}
+
 fn others(w: &World, skip: &[&str]) -> Vec<(Vec<u8>, Vec<u8>)> {
     w.store.m.iter().filter(|(k, _)| !skip.iter().any(|s| {
         let mut p = vec![0u8, s.len() as u8];
@@ -145,22 +156,31 @@ pub fn records(seed: u64, nhist: u64) -> Vec<Value> {
     let mut out = vec![];
     let mut sink = Sink::new(Box::new(std::io::sink()));
     let versions = ["0.4.18", "0.4.20", "1.0.0", "1.0.1", "1.1.0", "2.0.0", "1.0.0-rc1", "0.4.19", "0.4.17", "0.3.0", "0.9.9", "1.0.0+build", "garbage", "1.0", ""];
-    let names = ["staking", "treasury", "other"];
+    // (names that merely END with, start with or differ in case from the contract's own name are foreign stores too)
+    let names = ["staking", "treasury", "other", "dao-contracts:staking", "crates.io:staking", "staking:v2", "Staking", "staking "];
     for k in 0..nhist {
         let base = a_history(seed, k, &mut sink);
         let cur = raw_cfg(&base.w);
         let natden = cur["protocol_chain_config"]["ibc_token_denom"].clone();
         let staker = cur["native_chain_config"]["staker_address"].clone();
-        // ---- path 1.0.0 -> 1.1.0: detail record
-        {
+        // ---- path 1.0.0 -> 1.1.0: detail record; once with the store as it is and once with NO tracked transfer but
+        //      pending replies (each of the two maps must be converted whatever the other holds)
+        for no_tracked in [false, true] {
             let mut w = base.w.clone();
-            downgrade_1_0_0(&mut w, (k % 3) as usize);
+            if no_tracked {
+                for (id, _) in map_entries(&w, "inflight") {
+                    w.store.m.remove(&map_key("inflight", id));
+                }
+            }
+            downgrade_1_0_0(&mut w, if no_tracked { 2 } else { (k % 3) as usize });
             let prepk: Vec<Value> = map_entries(&w, "inflight").iter().map(|(id, v)| json!([id, v["sequence"], v["amount"], v["status"]])).collect();
             let prewait: Vec<Value> = map_entries(&w, "ibc_waiting_for_reply").iter().map(|(id, v)| json!([id, v["amount"]])).collect();
             let before = others(&w, &["inflight", "ibc_waiting_for_reply", "contract_info"]);
             let o = w.tx_migrate(&json!({"v1_0_0_to_v1_1_0": {}}));
-            let postpk: Vec<Value> = map_entries(&w, "inflight").iter().map(|(id, v)| json!([id, v["sequence"], v["amount"]["denom"], v["amount"]["amount"], v["receiver"], v["status"]])).collect();
-            let postwait: Vec<Value> = map_entries(&w, "ibc_waiting_for_reply").iter().map(|(id, v)| json!([id, v["amount"]["denom"], v["amount"]["amount"], v["receiver"]])).collect();
+            // (a field that is absent after the migration is recorded as the string "<missing>", never as JSON null)
+            let nn = |x: &Value| -> Value { if x.is_null() { json!("<missing>") } else { x.clone() } };
+            let postpk: Vec<Value> = map_entries(&w, "inflight").iter().map(|(id, v)| json!([id, nn(&v["sequence"]), nn(&v["amount"]["denom"]), nn(&v["amount"]["amount"]), nn(&v["receiver"]), nn(&v["status"])])).collect();
+            let postwait: Vec<Value> = map_entries(&w, "ibc_waiting_for_reply").iter().map(|(id, v)| json!([id, nn(&v["amount"]["denom"]), nn(&v["amount"]["amount"]), nn(&v["receiver"])])).collect();
             let (pn, pv) = proj::raw_version(&w);
             out.push(json!({"kind": "v110", "ok": o.ok, "panic": o.panic, "prepk": prepk, "prewait": prewait, "postpk": postpk, "postwait": postwait,
                 "natden": natden, "staker": staker, "others_unchanged": before == others(&w, &["inflight", "ibc_waiting_for_reply", "contract_info"]),
